@@ -84,7 +84,37 @@ def EXHAUSTIVE(tier, counters):
     }
 
 
+def at_scale_case(ctx, g, rng):
+    import curies
+
+    api, S = ctx.api, probe.S
+    n = rng.choice([150, 400]) if ctx.tier == "thorough" else 90
+    recs = gen.large_records(rng, n)
+    with probe.monitor_mode():
+        c = api.Converter([gen.mk_record(api, r) for r in recs])
+    some = rng.sample(recs, k=30)
+    m1, m2 = {}, {}
+    for i, r in enumerate(some):
+        if i % 4 == 0:
+            m1[r.uri_prefix] = f"http://moved/{i}/"
+            m2[r.prefix] = f"http://rewired/{i}/"
+        elif i % 4 == 1 and r.usyn:
+            m1[r.usyn[0]] = f"http://moved/{i}/"  # key is a synonym
+            m2[r.prefix] = r.usyn[0]  # onto its own synonym: becomes canonical
+        elif i % 4 == 2:
+            m1[f"http://unknown/{i}/"] = f"http://x/{i}/"
+            m2[f"unknown{i}"] = f"http://x/{i}/"
+        else:
+            m2[r.psyn[0] if r.psyn else r.prefix] = f"http://viasyn/{i}/"
+    call(curies.remap_uri_prefixes, c, m1)
+    call(curies.rewire, c, m2)
+    S.counters[f"wl:at-scale:n{n}"] += 1
+    probe.note_key(f"at-scale:n{n}", True)
+
+
 def run_case(ctx, g, rng):
+    if g % 200 == 200 - 1:
+        return at_scale_case(ctx, g, rng)
     import curies
 
     api, S = ctx.api, probe.S
